@@ -248,6 +248,7 @@ func NewReplay(trace []int) *Run {
 }
 
 func newRun() *Run {
+	noteRunStart()
 	r := &Run{
 		MaxSteps: 20000,
 		Probes:   map[string]int{},
@@ -462,7 +463,8 @@ func (t *Task) ParkLabel() string { return t.label }
 
 // ---------------------------------------------------------------- scheduler
 
-const watchdog = 20 * time.Second
+// wall-clock bound for one settle; a task that spins is caught earlier by the CPU-time hang monitor (hang.go)
+const watchdog = 5 * time.Minute
 
 func (r *Run) snapshotTasks() []*Task {
 	r.mu.Lock()
